@@ -2,12 +2,13 @@
 # Idempotent, offline: overlay venv on top of /venv (mapproxy's own environment) with
 # z3-solver and crosshair-tool from the local wheelhouse. Safe to call from every check.
 set -e
-V=/verif/.venv
+D=$(cd "$(dirname "$0")/.." && pwd)
+V="$D/.venv"
 STAMP="$V/.ok"
 if [ -f "$STAMP" ] && "$V/bin/python" -c 'import z3, crosshair, mapproxy' 2>/dev/null; then
     exit 0
 fi
-LOCK=/verif/.venv.lock
+LOCK="$D/.venv.lock"
 exec 9>"$LOCK"
 flock 9
 if [ -f "$STAMP" ] && "$V/bin/python" -c 'import z3, crosshair, mapproxy' 2>/dev/null; then
